@@ -1,5 +1,6 @@
-From GoMC Require Import Base.Dec Model.C05 Model.C17.
+From GoMC Require Import Base.Dec Model.C05 Model.C17 Model.C17_hover.
 Require Import ExtrOcamlBasic.
 Extraction "c17_model.ml" wire wire_opt type_write_opt wire_named msg_read dec_net of_nbt to_nbt to_json of_json type_write type_read
   clear_string ansi_string trans_ctrl strip sprintf fmt_code colors norm mixed_args no_bare enc_net wf_tag
+  enc_any dec_any canon hover_to_json hover_of_json
   BinInt.Z.of_N BinNat.N.of_nat.
